@@ -5,7 +5,10 @@ The readers are written in a small reader language `Prog` (a free monad over the
 Rust performs on its `Cursor<&[u8]>`): `read n` (`read_exact`, `UnexpectedEof` when fewer than `n`
 bytes remain), `getPos` (`position()` / `seek(Current(0))`), `setPos` (`seek(Start(_))`,
 `seek(Current(_))` — neither can fail for the 32-bit offsets involved), and `name`
-(`read_until(0)`, `pop()`, text decoding, `BadText` on failure).  Decoded names are collected by
+(`read_until(0)`, `pop()`, text decoding, `BadText` on failure; the cursor position after
+`read_until` is dead in all three readers — the next cursor operation is always an absolute seek
+(ctpk.rs:112, bch.rs:142, cgfx.rs:171 / end of loop) — so `name` leaves the position where it was).
+Decoded names are collected by
 the interpreter in the order they are read; they never influence control flow in the Rust either,
 except through `BadText`.  `run` interprets a program on a buffer; because the programs are data,
 the prefix-simulation lemma of C20 is proved once, by induction on `Prog`.
@@ -194,12 +197,12 @@ def nameLen (d : Buf) (pos : Nat) : Nat → Nat
   | 0 => 0
   | fuel + 1 => if pos < d.size ∧ d.getD pos 0 ≠ 0 then nameLen d (pos + 1) fuel + 1 else 0
 
-/-- `read_until(0x0, &mut buf); buf.pop();` at `pos`: the bytes kept and the number consumed.
-When the terminator is missing (end of data) the `pop` removes the last byte of the name. -/
-def rawName (d : Buf) (pos : Nat) : Bytes × Nat :=
+/-- `read_until(0x0, &mut buf); buf.pop();` at `pos`: the bytes kept.  When the terminator is
+missing (end of data) the `pop` removes the last byte of the name. -/
+def rawName (d : Buf) (pos : Nat) : Bytes :=
   let len := nameLen d pos (d.size - pos)
   let body := (d.extract pos (pos + len)).toList
-  if pos + len < d.size then (body, len + 1) else (body.dropLast, len)
+  if pos + len < d.size then body else body.dropLast
 
 def run {α : Type} : Prog α → Buf → St → Res (α × St)
   | .ret a, _, s => .ok (a, s)
@@ -213,10 +216,9 @@ def run {α : Type} : Prog α → Buf → St → Res (α × St)
   | .getPos k, d, s => run (k s.pos) d s
   | .setPos p k, d, s => run k d { s with pos := p }
   | .name enc k, d, s =>
-    let (raw, consumed) := rawName d s.pos
-    match decodeName enc raw with
+    match decodeName enc (rawName d s.pos) with
     | none => .err .Decoding
-    | some str => run k d { s with pos := s.pos + consumed, names := str :: s.names }
+    | some str => run k d { s with names := str :: s.names }
 
 /-- A decoded texture (`Texture` of texture.rs; `filename` as UTF-8 bytes). -/
 structure Texture where
@@ -272,25 +274,32 @@ def ctpkInfo : Prog CtpkInfo := do
   let _file_time ← u32le
   pure ⟨filename_ptr, texture_ptr, pixel_format, width, height⟩
 
-/-- ctpk.rs:86-136 `read` (no magic check in the code). -/
-def ctpkProg (p : Profile) : Prog (List Raw) := do
-  -- Header::new :22-40
+/-- ctpk.rs:22-40 `Header::new`: returns `(texture_count, texture_ptr)`. -/
+def ctpkHeader : Prog (Nat × Nat) := do
   let _magic_id ← u32le
   let _version ← u16le
   let texture_count ← u16le
-  let header_texture_ptr ← u32le
+  let texture_ptr ← u32le
   let _texture_length ← u32le
   let _hash_ptr ← u32le
   let _short_info_ptr ← u32le
   skip 8
-  let infos ← repeatN ctpkInfo texture_count                                   -- :92-95
-  mapM' (fun (info : CtpkInfo) => do                                             -- :99-134
-    seekStart info.filename_ptr                                                  -- :101
-    readName .sjis                                                               -- :102-109
-    let off ← lift (add32 p header_texture_ptr info.texture_ptr)                -- :113
-    seekStart off
-    readAndDecode p (payloadSize info.pixel_format info.width info.height) info.width info.height
-      info.pixel_format) infos
+  pure (texture_count, texture_ptr)
+
+/-- ctpk.rs:99-134: one texture. -/
+def ctpkTexture (p : Profile) (header_texture_ptr : Nat) (info : CtpkInfo) : Prog Raw := do
+  seekStart info.filename_ptr                                                    -- :101
+  readName .sjis                                                                 -- :102-109
+  let off ← lift (add32 p header_texture_ptr info.texture_ptr)                  -- :113
+  seekStart off
+  readAndDecode p (payloadSize info.pixel_format info.width info.height) info.width info.height
+    info.pixel_format                                                            -- :115-127
+
+/-- ctpk.rs:86-136 `read` (no magic check in the code). -/
+def ctpkProg (p : Profile) : Prog (List Raw) := do
+  let hdr ← ctpkHeader                                                           -- :89
+  let infos ← repeatN ctpkInfo hdr.1                                             -- :92-95
+  mapM' (ctpkTexture p hdr.2) infos                                              -- :99-134
 
 def ctpkRead (p : Profile) (d : Buf) : Res (List Texture) := runReader (ctpkProg p) d
 
@@ -323,9 +332,14 @@ def bchEntry (p : Profile) (contents_address strings_address commands_address ra
   seekStart data_offset                                                          -- :150
   readAndDecode p (payloadSize pixel_format width height) width height pixel_format  -- :151-158
 
-/-- bch.rs:105-167 `read`. -/
-def bchProg (p : Profile) : Prog (List Raw) := do
-  -- Header::new :34-86
+structure BchHeader where
+  contents_address : Nat
+  strings_address : Nat
+  commands_address : Nat
+  raw_data_address : Nat
+
+/-- bch.rs:34-86 `Header::new`. -/
+def bchHeader : Prog BchHeader := do
   let magic_id ← u32le
   require (magic_id = 0x484342) .BadMagic                                        -- :36-38
   let backward_compatibility ← u8
@@ -345,15 +359,24 @@ def bchProg (p : Profile) : Prog (List Raw) := do
   let _relocation_length ← u32le
   let _uninit_data_length ← u32le
   let _uninit_commands_length ← u32le
-  seekStart contents_address                                                     -- :110
-  -- ContentTable::new :93-103
+  pure ⟨contents_address, strings_address, commands_address, raw_data_address⟩
+
+/-- bch.rs:93-103 `ContentTable::new`: returns `(textures_ptr_table_offset, entries)`. -/
+def bchContentTable (p : Profile) (contents_address : Nat) : Prog (Nat × Nat) := do
   let ct ← lift (add32 p contents_address 0x24)                                  -- :94
   seekStart ct
   let t0 ← u32le                                                                 -- :95
   let textures_ptr_table_offset ← lift (add32 p t0 contents_address)
   let textures_ptr_table_entries ← u32le                                         -- :96
-  forIdx (bchEntry p contents_address strings_address commands_address raw_data_address
-    textures_ptr_table_offset) textures_ptr_table_entries 0                      -- :115
+  pure (textures_ptr_table_offset, textures_ptr_table_entries)
+
+/-- bch.rs:105-167 `read`. -/
+def bchProg (p : Profile) : Prog (List Raw) := do
+  let h ← bchHeader                                                              -- :108
+  seekStart h.contents_address                                                   -- :110
+  let ct ← bchContentTable p h.contents_address                                  -- :111
+  forIdx (bchEntry p h.contents_address h.strings_address h.commands_address h.raw_data_address ct.1)
+    ct.2 0                                                                       -- :115
 
 def bchRead (p : Profile) (d : Buf) : Res (List Texture) := runReader (bchProg p) d
 
@@ -402,9 +425,8 @@ def cgfxTexture (p : Profile) (t : Txob) : Prog Raw := do
   let px ← lift (decodePixelData p data t.width t.height t.pixel_format)         -- :187-188
   pure (t.width, t.height, px)
 
-/-- cgfx.rs:199-210 `read`. -/
-def cgfxProg (p : Profile) : Prog (List Raw) := do
-  -- Header::new :22-41
+/-- cgfx.rs:22-41 `Header::new`. -/
+def cgfxHeader : Prog Unit := do
   let magic_id ← u32le
   require (magic_id = 0x58464743) .BadMagic                                      -- :24-26
   let _byte_order_mark ← u16le
@@ -412,20 +434,31 @@ def cgfxProg (p : Profile) : Prog (List Raw) := do
   let _revision ← u32le
   let _file_size ← u32le
   let _entry_count ← u32le
-  -- DATA::new :52-69
+  pure ()
+
+/-- cgfx.rs:52-69 `DATA::new`: the 16 entry offsets. -/
+def cgfxData (p : Profile) : Prog (List Nat) := do
   let _magic ← u32le
   let _size ← u32le
-  let entries ← repeatN (do let _entry_count ← u32le; selfRel p) 16              -- :56-63
-  seekStart (entries.getD 1 0)                                                   -- :206
-  -- DICT::new :87-108
+  repeatN (do let _entry_count ← u32le; selfRel p) 16                            -- :56-63
+
+/-- cgfx.rs:87-108 `DICT::new`: the object offsets. -/
+def cgfxDict (p : Profile) : Prog (List Nat) := do
   let _magic ← u32le
   let _size ← u32le
   let entry_count ← u32le
   skip 0x10
-  let objects ← repeatN (do
+  repeatN (do
     skip 8
     let _filename_offset ← selfRel p                                             -- :95
     selfRel p) entry_count                                                       -- :96
+
+/-- cgfx.rs:199-210 `read`. -/
+def cgfxProg (p : Profile) : Prog (List Raw) := do
+  cgfxHeader                                                                     -- :202
+  let entries ← cgfxData p                                                       -- :203
+  seekStart (entries.getD 1 0)                                                   -- :206
+  let objects ← cgfxDict p                                                       -- :207
   let txobs ← mapM' (cgfxTxob p) objects                                         -- TXOB::new :132-164
   mapM' (cgfxTexture p) txobs                                                    -- parse_textures :166-197
 
@@ -482,22 +515,28 @@ def tplPalette : Prog TplPalette := do
   let data ← filePtr32 (readBytes (entry_count * 2))
   pure ⟨format, data⟩
 
-/-- tpl.rs:33-47 `Tpl`, `TplImageTableItem`. -/
+/-- tpl.rs:43-47 `TplImageTableItem`. -/
+def tplItem : Prog (TplImage × TplPalette) := do
+  let image ← filePtr32 tplImage
+  let palette ← filePtr32 tplPalette
+  pure (image, palette)
+
+/-- tpl.rs:33-41 `Tpl`. -/
 def tplParse : Prog (List (TplImage × TplPalette)) := do
   let magic ← u32be
   require (magic = 0x0020AF30) .BadMagic
   let image_count ← u32be
-  filePtr32 (repeatN (do
-    let image ← filePtr32 tplImage
-    let palette ← filePtr32 tplPalette
-    pure (image, palette)) image_count)
+  filePtr32 (repeatN tplItem image_count)
+
+/-- tpl.rs:85-122: one image of `extract_textures`. -/
+def tplTexture (ip : TplImage × TplPalette) : Prog Raw := do
+  let px ← lift (tplDecodeImage ip.2.format ip.2.data ip.1.format ip.1.height ip.1.width ip.1.data)
+  pure (ip.1.width, ip.1.height, px)
 
 /-- tpl.rs:78-125 `Tpl::extract_textures`: parse, then decode every image. -/
 def tplProg : Prog (List Raw) := do
   let items ← tplParse
-  mapM' (fun (ip : TplImage × TplPalette) => do
-    let px ← lift (tplDecodeImage ip.2.format ip.2.data ip.1.format ip.1.height ip.1.width ip.1.data)
-    pure (ip.1.width, ip.1.height, px)) items
+  mapM' tplTexture items
 
 /-- TPL textures have an empty `filename` (tpl.rs:117). -/
 def tplRead (d : Buf) : Res (List Texture) :=
